@@ -146,7 +146,8 @@ class Scenario(object):
     def attack_corrupt(self):
         rng = self.rng
         h = self.hostile()
-        marker = b"MK%dx%dK" % (self.sid, len(self.steps))
+        # random 64-bit tokens: no single-site corruption of one valid message can turn its token into another's
+        marker = b"MK%016xK" % self.rng.getrandbits(64)
         serial, data = self.valid_traffic(h, marker)
         # re-encode with sites
         r = wire.validate(data, nfds=None)
